@@ -22,8 +22,10 @@ type concOp struct {
 	err       error
 	done      bool
 	// read results
-	readAt  int // number of commits before the read
-	readRes any
+	readAt   int // number of commits before the read returned
+	readFrom int // number of commits before the read was issued (its snapshot lies between the two)
+	readOK   bool
+	readRes  any
 }
 
 type ConcRun struct {
@@ -65,6 +67,7 @@ type readTok struct {
 	ents   []string
 	err    error
 }
+
 // readScan is a whole-feed read in either direction; the reversed one is read entry by entry through the
 // service-level iterator (GET /changes?reverse=true) with other tasks scheduled in between.
 type readScan struct {
@@ -86,6 +89,7 @@ func (r *ConcRun) execOp(t *Task, co *concOp) {
 		time.Sleep(time.Duration(op.Sleep))
 	}
 	h := r.H
+	co.readFrom = r.commits
 	switch op.K {
 	case "batch":
 		ds := h.Dataset(op.DS)
@@ -463,13 +467,21 @@ func RunConcScenario(sc *Scenario) (vd *Verdict) {
 			}
 		}
 	}
-	sort.SliceStable(reads, func(i, j int) bool { return reads[i].readAt < reads[j].readAt })
-	ri := 0
+	// a read takes its snapshot somewhere between its call and its return (it yields to other tasks on the way):
+	// it has to agree with the serial state after k commits for some k in that interval
+	sort.SliceStable(reads, func(i, j int) bool { return reads[i].readFrom < reads[j].readFrom })
 	checkReads := func(upto int) *Violation {
-		for ri < len(reads) && reads[ri].readAt == upto {
-			co := reads[ri]
-			ri++
-			if v := r.checkRead(m, co); v != nil {
+		for _, co := range reads {
+			if co.readFrom > upto {
+				break
+			}
+			if co.readOK || co.readAt < upto {
+				continue
+			}
+			v := r.checkRead(m, co)
+			if v == nil {
+				co.readOK = true
+			} else if co.readAt == upto {
 				return v
 			}
 		}
@@ -726,7 +738,7 @@ func (r *ConcRun) checkRead(m *Model, co *concOp) *Violation {
 		}
 		fr := r.readers[co.task]
 		if fr == nil {
-			fr = &FeedReader{DS: rd.ds, Latest: rd.latest}
+			fr = &FeedReader{DS: rd.ds, Latest: rd.latest, TokenIsIndex: true}
 			r.readers[co.task] = fr
 		}
 		fr.Token = rd.token
@@ -801,7 +813,6 @@ func raceSites(r string) string {
 	sort.Strings(parts)
 	return strings.Join(parts, "/")
 }
-
 
 // checkDeletedStayHidden (profile C07c): clients delete different datasets at the same time while others write to
 // the datasets that stay. Afterwards, after a restart and after garbage collection nothing of a deleted dataset
@@ -911,7 +922,6 @@ func (r *ConcRun) checkDeletedStayHidden(m *Model) *Violation {
 	}
 	return check(h2, "after-gc")
 }
-
 
 // genC07c: two or three clients delete different datasets at the same time while writers work on the datasets
 // that stay; all datasets share entity ids and reference each other's entities.
